@@ -72,7 +72,8 @@ const PROBES: [&str; 18] = [
 /// every history starts from a booted interpreter that already has two user-defined immediate
 /// words: `imm` (harmless) and `boom` (fails when it is executed, i.e. while the source using it is read)
 // ... and a late-bound word `lq` (not defined yet) with a caller `lu`
-const PRELUDE: &str = ": imm immediate 1 drop ; : boom immediate 1 0 / ; late lq : lu lq ;";
+// ... and an immediate word that calls that caller while a source is compiled
+const PRELUDE: &str = ": imm immediate 1 drop ; : boom immediate 1 0 / ; late lq : lu lq ; : calllu immediate lu drop ;";
 fn c10_base() -> Xstate {
     let mut xs = boot();
     let _ = xs.set_insn_limit(Some(100_000));
@@ -84,11 +85,11 @@ fn c10_base() -> Xstate {
 
 fn rejected_candidates(quick: bool) -> Vec<String> {
     let prefixes: Vec<&str> = if quick {
-        vec!["", "1 2", "true if", "begin", "[ 1", ": f 1", "#( 1", "#( true if", ": f #(", "3 0 do", "5 var w", "case 1 of", "^{", "late q", "7 imm", ": lq 5 ; #( lu #)", "5 var lq #( lu #)"]
+        vec!["", "1 2", "true if", "begin", "[ 1", ": f 1", "#( 1", "#( true if", ": f #(", "3 0 do", "5 var w", "case 1 of", "^{", "late q", "7 imm", ": lq 5 ; #( lu #)", "5 var lq #( lu #)", ": lq 111 ; calllu", ": h 2 ;", "6 var v"]
     } else {
         vec![
             "", "1", "1 2", "true if", "true if 1 else", "begin", "begin true while", "[ 1", "{ 1", ": f 1", ": f local x", "#(", "#( 1", "#( true if", "#( #( 2", ": f #(", "3 0 do", "[ 1 ] foreach",
-            "5 var w", "case 1 of", "case 1 of 2 endof", "enum E", "enum E : A", "^{", "late q", "1 let z", "#( 4 const c #)", ": f 1 ; : g f", "7 imm", ": lq 5 ; #( lu #)", ": lq 5 ; lu", "5 var lq #( lu #)", "5 const lq #( lu #)",
+            "5 var w", "case 1 of", "case 1 of 2 endof", "enum E", "enum E : A", "^{", "late q", "1 let z", "#( 4 const c #)", ": f 1 ; : g f", "7 imm", ": lq 5 ; #( lu #)", ": lq 5 ; lu", "5 var lq #( lu #)", "5 const lq #( lu #)", ": lq 111 ; calllu", ": h 2 ;", "6 var v", ": h 2 ; 6 var v : g h ;",
         ]
     };
     let failing: Vec<&str> = if quick {
@@ -151,6 +152,10 @@ fn observe(xs: &mut Xstate, src: &str, st: Style) -> Result<Obs, String> {
     watch::note(AsRef::<str>::as_ref(&src));
     let r = guarded(|| submit(xs, src, st))?;
     Ok(Obs { kind: res_kind(&r), stack: stack_of(xs), out: xs.read_stdout().unwrap_or_default() })
+}
+
+fn a_out(o: &(String, Vec<String>, String)) -> String {
+    o.2.clone()
 }
 
 fn rebuild(base: &Xstate, hist: &[(usize, Style)], sources: &[&str]) -> Xstate {
@@ -415,6 +420,75 @@ pub fn run(cfg: &Cfg) -> i32 {
         rt_steps = steps.load(Ordering::Relaxed);
     }
 
+    // ---------- the rejected source arrives as a FILE (eval_file / compile_file): same demand
+    let mut file_cases = 0u64;
+    {
+        let shm = std::path::Path::new("/dev/shm");
+        let root = if shm.is_dir() { shm.to_path_buf() } else { std::env::temp_dir() };
+        let dir = root.join(format!("xmc-c10-{}", std::process::id()));
+        let _ = std::fs::create_dir_all(&dir);
+        let cnt = AtomicU64::new(0);
+        par_run(cfg.threads, rejected.len(), 8, |t, pull| {
+            let base = c10_base();
+            let starts: Vec<(&str, Xstate)> = ["", "7 8", "5 var v : h 1 ;"]
+                .iter()
+                .map(|h| {
+                    let mut xs = base.clone();
+                    if !h.is_empty() {
+                        let _ = guarded(|| xs.eval(h));
+                    }
+                    (*h, xs)
+                })
+                .collect();
+            let path = dir.join(format!("r{}.xeh", t));
+            let path_s: Xstr = path.to_string_lossy().to_string().into();
+            while let Some(rg) = pull() {
+                for ri in rg {
+                    let r = &rejected[ri];
+                    if std::fs::write(&path, r).is_err() {
+                        machinery_error("C10: cannot write the scratch source file");
+                    }
+                    for (h, s0) in &starts {
+                        for via in ["eval_file", "compile_file"] {
+                            cnt.fetch_add(1, Ordering::Relaxed);
+                            let mut xs = s0.clone();
+                            watch::note(r.as_str());
+                            let rr = guarded(|| if via == "eval_file" { xs.eval_file(path_s.clone()) } else { xs.compile_file(path_s.clone()) });
+                            if !matches!(rr, Ok(Err(_))) {
+                                continue;
+                            }
+                            let _ = xs.read_stdout();
+                            for q in ["5", "depth", "v", "h"] {
+                                let (mut a, mut b) = (s0.clone(), xs.clone());
+                                let (ra, rb) = (guarded(|| a.eval(q)), guarded(|| b.eval(q)));
+                                let oa = (format!("{:?}", ra.map(|r| res_kind(&r))), stack_of(&a), a.read_stdout().unwrap_or_default());
+                                let ob = (format!("{:?}", rb.map(|r| res_kind(&r))), stack_of(&b), if runs_while_read(r) { a_out(&oa) } else { b.read_stdout().unwrap_or_default() });
+                                if oa != ob {
+                                    rep.report_w(&format!("rejected-file:{}", via), (h.len() * 1000 + r.len()) as u64, || {
+                                        jo(vec![
+                                            ("kind", js("rejected-source-file")),
+                                            ("history", js(*h)),
+                                            ("file_content", js(r.clone())),
+                                            ("submitted_with", js(via)),
+                                            ("probe", js(q)),
+                                            ("without_the_file", js(format!("{:?}", oa))),
+                                            ("after_the_rejected_file", js(format!("{:?}", ob))),
+                                        ])
+                                    });
+                                    break;
+                                }
+                            }
+                        }
+                    }
+                }
+            }
+            let _ = std::fs::remove_file(&path);
+        });
+        let _ = std::fs::remove_dir_all(&dir);
+        file_cases = cnt.load(Ordering::Relaxed);
+    }
+    ev.add("rejected_file_cases", ji(file_cases));
+
     // ---------- a program suspended in the middle (compiled, then single-stepped into a call, a loop or an open
     // builder) continues exactly as it would have after a source was rejected meanwhile
     let mut suspended_cases = 0u64;
@@ -491,8 +565,9 @@ pub fn run(cfg: &Cfg) -> i32 {
             while let Some(rg) = pull() {
                 for ri in rg {
                     let r = rej[ri];
-                    for g1 in GOOD.iter() {
-                        for g2 in GOOD.iter().take(if quick { 4 } else { GOOD.len() }) {
+                    for g1 in GOOD.iter().chain(FAILING.iter()) {
+                        // (g2 = None: the run follows the rejected compile directly)
+                        for g2 in GOOD.iter().take(if quick { 4 } else { GOOD.len() }).map(|g| Some(*g)).chain(std::iter::once(None)) {
                             cnt.fetch_add(1, Ordering::Relaxed);
                             let run = |with: bool| -> Result<(Vec<String>, Vec<String>, String), String> {
                                 let mut xs = base.clone();
@@ -504,7 +579,12 @@ pub fn run(cfg: &Cfg) -> i32 {
                                         return Err("not-rejected".into());
                                     }
                                 }
-                                kinds.push(res_kind(&guarded(|| xs.compile(g2))?));
+                                if let Some(g2) = g2 {
+                                    kinds.push(res_kind(&guarded(|| xs.compile(g2))?));
+                                }
+                                kinds.push(res_kind(&guarded(|| xs.run())?));
+                                // ... and the line after that starts afresh, whatever became of the run
+                                kinds.push(res_kind(&guarded(|| xs.compile("70 80"))?));
                                 kinds.push(res_kind(&guarded(|| xs.run())?));
                                 Ok((kinds, stack_of(&xs), xs.read_stdout().unwrap_or_default()))
                             };
@@ -515,10 +595,11 @@ pub fn run(cfg: &Cfg) -> i32 {
                                         a.2 = b.2.clone();
                                     }
                                     if a != b {
+                                        let g2 = g2.unwrap_or("(nothing)");
                                         rep.report_w("pending-code:rejected-source-has-effect", (g1.len() + r.len() + g2.len()) as u64, || {
                                             jo(vec![
                                                 ("kind", js("compile-without-run")),
-                                                ("calls", J::A(vec![js(format!("compile {}", g1)), js(format!("compile {}   (rejected)", r)), js(format!("compile {}", g2)), js("run")])),
+                                                ("calls", J::A(vec![js(format!("compile {}", g1)), js(format!("compile {}   (rejected)", r)), js(format!("compile {}", g2)), js("run"), js("compile 70 80"), js("run")])),
                                                 ("with_the_rejected_source", js(format!("{:?}", a))),
                                                 ("without_it", js(format!("{:?}", b))),
                                             ])
